@@ -301,6 +301,8 @@ def conclude(mod, prop, tier, seed, recs, planned, dead_workers, t_start, extra_
 
     EVIDENCE_DIR.mkdir(exist_ok=True)
     REPLAY_DIR.mkdir(exist_ok=True)
+    for old in REPLAY_DIR.glob(f"{prop}-{tier}-s{seed}-*.json"):
+        old.unlink()
     replay_paths = []
     seen_new = set()
     for r, v in viol_new:
